@@ -69,5 +69,6 @@ class SMMapSet(
         sms = super(SMMapSet, self).rate(by=by)
         sms.sample_start /= by
         sms.sample_length /= by
+        sms.offset /= by
 
         return sms
